@@ -40,6 +40,9 @@
  * are not searched but driven through a structured family of histories
  * (rotate the cursors, fill to each boundary, overfill, iterate, drain,
  * wrap, iterate, drain to empty) with position-dependent element values.
+ *
+ * Huge scope (thorough only): the library's octet_ring on capacities 2^31+16
+ * and 2^32+8, see huge_family().
  */
 /* Build variants.  NDEBUG is a per-translation-unit setting: the library
  * objects (octet_ring, rb_iter_done / rb_iter_advance) and the application
@@ -756,6 +759,406 @@ big_family(void)
         }
 }
 
+/* ---- huge capacities (thorough tier only) -------------------------------------
+ * "Every capacity" includes rings whose slot numbers do not fit 31 / 32 bits: a
+ * cursor, an iterator index or a size computed in an int / unsigned int is
+ * right for every ring the families above drive.  The library's octet_ring is
+ * driven on capacities 2^31+16 and 2^32+8 (real, lazily committed anonymous
+ * memory between two inaccessible pages: put writes every slot it passes, and a
+ * tiled file would make the value read from a slot depend on where the
+ * implementation keeps its elements -- nothing the statement fixes).  The model
+ * is the pair of sequence numbers [lo, hi) of the queued elements; the element
+ * with sequence number s has the value hugeval(s) (odd, so never the 0 of an
+ * empty get and never the even value of a put the model says is dropped).
+ * Observers at a checkpoint: size/empty/full and both iterators over their first
+ * HUGE_WIN elements (the oldest HUGE_WIN old-to-new, the newest HUGE_WIN
+ * new-to-old; to completion when the queue is shorter).  Checkpoints straddle
+ * every power of two below the capacity and the capacity itself, counted in
+ * puts while filling, in evictions when full (override on) and in gets while
+ * draining (override off): wherever the implementation keeps its cursors, each
+ * of them has then passed each such slot number by each kind of step.
+ *
+ * The statement sets no speed: a start-up probe (a 64 KiB ring, 4 Mi puts,
+ * put/get pairs and iterator steps) projects the time of each case; a case that
+ * would not fit half its watchdog budget is not run (cap `huge-slow`, run marked
+ * non-exhaustive) -- never a hang.  The clock decides only whether a case is
+ * run; it is not consulted in a replay and never printed.  All cases of one
+ * capacity belong to one partition (one process: one mapping at a time). */
+#ifndef C19_LIGHT
+#include <sys/mman.h>
+#include <time.h>
+
+#define HUGE_WIN 64u
+#define HUGE_DROPVAL 0x7eu
+
+static inline uint8_t
+hugeval(uint64_t s)
+{
+    return (uint8_t)(((s * 0x9e3779b97f4a7c15ull) >> 56) | 1u);
+}
+
+struct huge_mem {
+    uint8_t *base;
+    size_t span;
+    uint8_t *mem;
+};
+
+static bool
+huge_map(struct huge_mem *h, size_t cap)
+{
+    const size_t pg = (size_t)sysconf(_SC_PAGESIZE);
+    const size_t body = (cap + pg - 1) / pg * pg;
+    h->span = body + 2 * pg;
+    h->base = mmap(NULL, h->span, PROT_NONE, MAP_PRIVATE | MAP_ANONYMOUS | MAP_NORESERVE, -1, 0);
+    if (h->base == MAP_FAILED)
+        return false;
+    if (mprotect(h->base + pg, body, PROT_READ | PROT_WRITE) != 0) {
+        munmap(h->base, h->span);
+        return false;
+    }
+    h->mem = h->base + pg + body - cap; /* the storage ends at the inaccessible page behind it */
+    return true;
+}
+
+struct huge_model {
+    uint64_t lo, hi; /* sequence numbers of the queued elements: [lo, hi) */
+    uint64_t cap;
+    int ovr;
+    uint64_t nput, nget, nevict, ndrop;
+};
+
+static void
+huge_put_n(octet_ring *c, struct huge_model *m, uint64_t n)
+{
+    for (uint64_t i = 0; i < n; ++i) {
+        if (m->hi - m->lo == m->cap) {
+            if (m->ovr) {
+                octet_ring_put(c, hugeval(m->hi));
+                m->lo++;
+                m->hi++;
+                m->nevict++;
+            } else {
+                octet_ring_put(c, (uint8_t)HUGE_DROPVAL);
+                m->ndrop++;
+            }
+        } else {
+            octet_ring_put(c, hugeval(m->hi));
+            m->hi++;
+        }
+    }
+    m->nput += n;
+    mc_trans((int64_t)n);
+}
+
+static void
+huge_get_n(octet_ring *c, struct huge_model *m, uint64_t n)
+{
+    uint64_t i;
+    for (i = 0; i < n; ++i) {
+        const uint8_t v = octet_ring_get(c);
+        if (m->hi == m->lo) {
+            if (v != 0) {
+                mc_fail("C19/get-empty-zero", "get on empty returned %x", v);
+                break;
+            }
+        } else {
+            if (v != hugeval(m->lo)) {
+                mc_fail("C19/get-oldest", "get number %llu returned %x, oldest (element number %llu) is %x",
+                        (unsigned long long)(m->nget + i), v, (unsigned long long)m->lo, hugeval(m->lo));
+                break;
+            }
+            m->lo++;
+        }
+    }
+    m->nget += i;
+    mc_trans((int64_t)i);
+}
+
+/* size/empty/full and both iterators over their first HUGE_WIN elements (to completion on a shorter queue) */
+static void
+huge_observe(const octet_ring *c, const struct huge_model *m)
+{
+    const uint64_t qlen = m->hi - m->lo;
+    const size_t sz = octet_ring_size(c);
+    const bool em = octet_ring_empty(c), fu = octet_ring_full(c);
+    mc_log("after %llu puts (%llu evicting, %llu dropped), %llu gets: size=%zu empty=%d full=%d", (unsigned long long)m->nput,
+           (unsigned long long)m->nevict, (unsigned long long)m->ndrop, (unsigned long long)m->nget, sz, em, fu);
+    if (sz != qlen)
+        mc_fail("C19/size", "size()=%zu, queue holds %llu", sz, (unsigned long long)qlen);
+    if (em != (qlen == 0))
+        mc_fail("C19/empty", "empty()=%d, queue holds %llu", em, (unsigned long long)qlen);
+    if (fu != (qlen == m->cap))
+        mc_fail("C19/full", "full()=%d, queue holds %llu of %llu", fu, (unsigned long long)qlen, (unsigned long long)m->cap);
+    const uint64_t win = qlen <= HUGE_WIN ? qlen : HUGE_WIN;
+    for (int dir = 0; dir < 2 && !mc.cur_failed; ++dir) {
+        const int pk = dir ? IT_FF : IT_AUXA_DONE;
+        const char *cl = dir ? "C19/iter-new-to-old" : "C19/iter-old-to-new";
+        rb_iter it;
+        iter_history(&it, pk);
+        octet_ring_iter(&it, c, dir ? RING_BUFFER_ITER_NEW_TO_OLD : RING_BUFFER_ITER_OLD_TO_NEW);
+        uint64_t steps = 0;
+        for (; !rb_iter_done(&it); rb_iter_advance(&it), ++steps) {
+            if (steps == win && win < qlen)
+                break; /* end of the window */
+            if (steps >= qlen) {
+                mc_fail(cl, "iterator object %s: yields more than the %llu queued elements", ITN[pk], (unsigned long long)qlen);
+                break;
+            }
+            const uint8_t v = octet_ring_inspect(c, &it);
+            if (steps < 8)
+                mc_log("iter dir=%d step=%llu value=%x", dir, (unsigned long long)steps, v);
+            const uint8_t want = dir ? hugeval(m->hi - 1 - steps) : hugeval(m->lo + steps);
+            if (v != want) {
+                mc_fail(cl, "iterator object %s: step %llu yields %x, queue has %x (element number %llu)", ITN[pk],
+                        (unsigned long long)steps, v, want, (unsigned long long)(dir ? m->hi - 1 - steps : m->lo + steps));
+                break;
+            }
+        }
+        if (steps < win && !mc.cur_failed)
+            mc_fail(cl, "iterator object %s: finished after %llu steps, queue holds %llu", ITN[pk], (unsigned long long)steps,
+                    (unsigned long long)qlen);
+        mc_trans((int64_t)steps);
+    }
+}
+
+/* sorted, duplicate-free checkpoint counts <= limit: next to 1, the window, every power of two below cap, and cap */
+static int
+huge_checkpoints(uint64_t *cp, int max, uint64_t cap, uint64_t limit)
+{
+    uint64_t cand[40];
+    int nc = 0, n = 0;
+    const uint64_t small[] = { 1, 2, 32, HUGE_WIN, HUGE_WIN + 1 };
+    for (size_t i = 0; i < sizeof small / sizeof small[0]; ++i)
+        cand[nc++] = small[i];
+    for (int sh = 31; sh <= 32; ++sh) {
+        const uint64_t b = (uint64_t)1 << sh;
+        if (b < cap) {
+            cand[nc++] = b - 32;
+            cand[nc++] = b - 1;
+            cand[nc++] = b;
+            cand[nc++] = b + 1;
+            cand[nc++] = b + 32;
+        }
+    }
+    cand[nc++] = cap - 32;
+    cand[nc++] = cap - 1;
+    cand[nc++] = cap;
+    cand[nc++] = cap + 1;
+    cand[nc++] = cap + 32;
+    /* insertion sort, unique */
+    for (int i = 0; i < nc; ++i) {
+        if (cand[i] > limit)
+            continue;
+        int j = n;
+        bool dup = false;
+        for (int k = 0; k < n; ++k)
+            dup |= cp[k] == cand[i];
+        if (dup || n >= max)
+            continue;
+        while (j > 0 && cp[j - 1] > cand[i]) {
+            cp[j] = cp[j - 1];
+            --j;
+        }
+        cp[j] = cand[i];
+        ++n;
+    }
+    return n;
+}
+
+/* nanoseconds per put (evicting: the longest path), per get + put pair, per iterator step (inspect included) */
+static double huge_ns[3];
+
+static void
+huge_probe(void)
+{
+    static bool done;
+    static uint8_t pm[1u << 16];
+    if (done)
+        return;
+    done = true;
+    const uint64_t N = (uint64_t)1 << 22;
+    const int64_t trans0 = mc.transitions; /* the probe is not part of any case's work */
+    double best[3] = { 1e18, 1e18, 1e18 };
+    unsigned sink = 0;
+    for (int round = 0; round < 3; ++round) {
+        octet_ring c;
+        memset(&c, 0, sizeof c);
+        octet_ring_init(&c, pm, sizeof pm);
+        octet_ring_override_if_full(&c, true);
+        struct huge_model m = { 0, 0, sizeof pm, 1, 0, 0, 0, 0 };
+        for (int k = 0; k < 3; ++k) {
+            struct timespec t0, t1;
+            clock_gettime(CLOCK_MONOTONIC, &t0);
+            if (k == 0) {
+                huge_put_n(&c, &m, N);
+            } else if (k == 1) {
+                for (uint64_t i = 0; i < N; ++i) {
+                    sink += octet_ring_get(&c);
+                    octet_ring_put(&c, hugeval(i));
+                }
+            } else {
+                uint64_t steps = 0;
+                while (steps < N) {
+                    rb_iter it;
+                    memset(&it, 0, sizeof it);
+                    for (octet_ring_iter(&it, &c, RING_BUFFER_ITER_NEW_TO_OLD); !rb_iter_done(&it) && steps < N;
+                         rb_iter_advance(&it), ++steps)
+                        sink += (unsigned)(octet_ring_inspect(&c, &it) == hugeval(steps));
+                    if (octet_ring_size(&c) == 0)
+                        break; /* nothing to iterate over: the projection below stays low, the budget decides */
+                }
+            }
+            clock_gettime(CLOCK_MONOTONIC, &t1);
+            const double dt = 1e9 * (double)(t1.tv_sec - t0.tv_sec) + (double)(t1.tv_nsec - t0.tv_nsec);
+            if (dt / (double)N < best[k])
+                best[k] = dt / (double)N;
+        }
+    }
+    if (sink == 0xffffffffu)
+        best[0] += 1e-9; /* keeps the loops */
+    for (int k = 0; k < 3; ++k)
+        huge_ns[k] = best[k];
+    mc.transitions = trans0;
+}
+
+enum { HUGE_FILL_DRAIN, HUGE_FILL_EVICT, NHUGEKINDS };
+
+static void
+huge_family(void)
+{
+    static const char *KN[NHUGEKINDS] = {
+        "fill(checkpoints),overfill,drain(checkpoints;refill-across-the-wrap-at-32-left),get-on-empty",
+        "fill(checkpoints),evict-past-every-boundary-and-once-around(checkpoints),get-64,put-2",
+    };
+    /* partition = the shard of the process that drives this capacity: 14 and 15 carry the
+     * lightest searches (capacity 8 and below); rotations: 0 and 1 on the smaller ring, 0 on the larger */
+    static const struct { uint64_t cap; const char *name; int partition; uint64_t maxrot; } CAPS[2] = {
+        { ((uint64_t)1 << 31) + 16, "2^31+16", 14, 1 },
+        { ((uint64_t)1 << 32) + 8, "2^32+8", 15, 0 },
+    };
+    bool said_map = false, said_slow = false;
+    aux_rings(3, 7);
+    for (int ci = 0; ci < 2; ++ci) {
+        const uint64_t cap = CAPS[ci].cap;
+        if (!mc_partition(CAPS[ci].partition, 200 + ci))
+            continue;
+        for (int kind = 0; kind < NHUGEKINDS; ++kind)
+            for (uint64_t rot = 0; rot <= CAPS[ci].maxrot; ++rot) {
+                const int ovr = kind == HUGE_FILL_EVICT;
+                if (!mc_case("huge octet_ring cap=%llu (%s; lazily committed anonymous memory) override=%d rotate=%llu history=%s",
+                             (unsigned long long)cap, CAPS[ci].name, ovr, (unsigned long long)rot, KN[kind]))
+                    continue;
+                /* work of the case in operations, its watchdog budget (40 ns per operation
+                 * and a minute; the unchanged library needs about 9), the projection from the probe */
+                const double nputs = (double)cap * (kind == HUGE_FILL_EVICT ? 2.0 : 1.0) + 200.0;
+                const double ngets = kind == HUGE_FILL_DRAIN ? (double)cap : 100.0;
+                const double niter = 1.0e4;
+                const double budget = 60.0 + 40.0e-9 * (nputs + ngets + niter);
+                mc_budget((int)budget);
+                if (mc.only < 0) {
+                    huge_probe();
+                    const double proj = 1e-9 * (nputs * huge_ns[0] + ngets * huge_ns[1] + niter * huge_ns[2]) + 2.0e-9 * (double)cap;
+                    if (proj > 0.5 * budget) {
+                        if (!said_slow)
+                            mc_cap("huge-slow: at the measured throughput a history on 2^31 / 2^32 slots does not fit half its watchdog budget: not run");
+                        said_slow = true;
+                        mc_end(false, "huge-slow");
+                        continue;
+                    }
+                }
+                struct huge_mem hm;
+                if (!huge_map(&hm, (size_t)cap)) {
+                    if (!said_map)
+                        mc_cap("huge-unmapped: no address range of 2^31 / 2^32 octets: rings of that capacity not driven");
+                    said_map = true;
+                    mc_end(false, "huge-unmapped");
+                    continue;
+                }
+                const char *outcome = "huge-stored";
+                octet_ring c;
+                memset(&c, 0, sizeof c);
+                octet_ring_init(&c, hm.mem, (size_t)cap);
+                octet_ring_override_if_full(&c, ovr != 0);
+                struct huge_model m = { 0, 0, cap, ovr, 0, 0, 0, 0 };
+                uint64_t cp[40];
+                huge_observe(&c, &m);
+                /* rotate the cursors */
+                huge_put_n(&c, &m, rot);
+                if (!mc.cur_failed)
+                    huge_get_n(&c, &m, rot);
+                /* fill */
+                const int nfill = huge_checkpoints(cp, 40, cap, cap);
+                for (int i = 0; i < nfill && !mc.cur_failed; ++i) {
+                    huge_put_n(&c, &m, cp[i] - (m.hi - m.lo));
+                    huge_observe(&c, &m);
+                }
+                if (kind == HUGE_FILL_DRAIN && !mc.cur_failed) {
+                    /* two puts into the full ring: dropped */
+                    for (int i = 0; i < 2 && !mc.cur_failed; ++i) {
+                        huge_put_n(&c, &m, 1);
+                        huge_observe(&c, &m);
+                    }
+                    outcome = "huge-dropped";
+                    uint64_t drained = 0;
+                    for (int i = 0; i < nfill && !mc.cur_failed; ++i) {
+                        huge_get_n(&c, &m, cp[i] - drained);
+                        drained = cp[i];
+                        if (mc.cur_failed)
+                            break;
+                        huge_observe(&c, &m);
+                        if (cp[i] == cap - 32) {
+                            /* 32 left at the end of the fill: 32 more puts, the queue lies across the wrap of the write cursor */
+                            huge_put_n(&c, &m, 32);
+                            huge_observe(&c, &m);
+                            if (!mc.cur_failed)
+                                huge_get_n(&c, &m, 32);
+                            if (!mc.cur_failed)
+                                huge_observe(&c, &m);
+                        }
+                    }
+                    /* (the 32 refilled elements took the place of the last 32 of the fill: the drain ends on an empty ring) */
+                    if (!mc.cur_failed)
+                        huge_get_n(&c, &m, m.hi - m.lo);
+                    if (!mc.cur_failed)
+                        huge_get_n(&c, &m, 1); /* on empty */
+                    if (!mc.cur_failed)
+                        huge_observe(&c, &m);
+                } else if (kind == HUGE_FILL_EVICT && !mc.cur_failed) {
+                    outcome = "huge-evicts";
+                    const int nev = huge_checkpoints(cp, 40, cap, cap + 32);
+                    for (int i = 0; i < nev && !mc.cur_failed; ++i) {
+                        huge_put_n(&c, &m, cp[i] - m.nevict);
+                        huge_observe(&c, &m);
+                    }
+                    if (!mc.cur_failed)
+                        huge_get_n(&c, &m, 64);
+                    if (!mc.cur_failed)
+                        huge_observe(&c, &m);
+                    if (!mc.cur_failed) {
+                        huge_put_n(&c, &m, 2);
+                        huge_observe(&c, &m);
+                    }
+                }
+                munmap(hm.base, hm.span);
+                mc_end(true, outcome);
+            }
+        /* vacuity: the process that drove this capacity saw both modes' histories, or said why not */
+        if (mc.only < 0 && mc.skip == 0 && mc.violations == 0 && !said_slow && !said_map) {
+            int64_t nd = 0, ne = 0;
+            for (int k = 0; k < mc.noutcomes; ++k) {
+                if (!strcmp(mc.outcomes[k], "huge-dropped"))
+                    nd = mc.outcome_count[k];
+                if (!strcmp(mc.outcomes[k], "huge-evicts"))
+                    ne = mc.outcome_count[k];
+            }
+            if (nd < 1 || ne < 1)
+                mc_broken("huge family, capacity %s: %lld dropping and %lld evicting histories were driven", CAPS[ci].name,
+                          (long long)nd, (long long)ne);
+        }
+    }
+}
+#endif
+
 /* Mixed builds (library objects and application with different NDEBUG
  * settings): do the two sides agree on the layout of the public object types
  * that cross the boundary?  The library side tells through harness/c19_libside.c,
@@ -838,6 +1241,8 @@ main(int argc, char **argv)
     mc_partition(-1, 199);
 #ifndef C19_LIGHT
     big_family();
+    if (mc_thorough())
+        huge_family();
 #endif
 #ifdef C19_MIXED
     /* the orchestrator cannot require the search's outcome classes of a harness
@@ -849,7 +1254,7 @@ main(int argc, char **argv)
     /* vacuity is guarded by the orchestrator's required outcome classes
      * (put-evicts, put-dropped, get-empty, get-oldest, clear, ...): the
      * searches are spread over the shards, so no single process sees all */
-    char bound[900];
+    char bound[1800];
 #ifdef C19_LIGHT
     snprintf(bound, sizeof bound,
              "build variant (library %s assertions, application %s): capacities 1..%zu x element types u8/u16/u32/float/double/int64 x two element values, all operations + re-initialisation, "
@@ -873,8 +1278,12 @@ main(int argc, char **argv)
              "to capacities {cap-1,cap,cap+1,1,%zu} from every state of the home capacity, roots init / init+override(off) / init+override(on) / "
              "init of a 0xff object (cap<=3), observers and both iterators on 7 iterator-object histories in every state, to fixpoint; "
              "capacities 2^{%s}-1..+1 x u8/u16/u32/float/double/int64 x override off/on x rotation {0,1,cap-1} x fill levels {0,1,2,2^8-1..2^8+1,2^15-1..2^15+1,2^16-1..2^16+1,cap-1,cap} "
-             "x overfill 0..2 x drain {none,one,all-but-one,all}: structured histories with observers and both iterators (3 iterator-object histories) after fill, drain and wrap",
-             maxcap, maxcap, mc_thorough() ? "8,15,16,17" : "8,16");
+             "x overfill 0..2 x drain {none,one,all-but-one,all}: structured histories with observers and both iterators (3 iterator-object histories) after fill, drain and wrap%s",
+             maxcap, maxcap, mc_thorough() ? "8,15,16,17" : "8,16",
+             mc_thorough() ? "; octet_ring on capacities 2^31+16 (rotation 0,1) and 2^32+8 (rotation 0) of lazily committed memory x {override off: fill, 2 dropped puts, drain to empty (32 puts across the wrap when 32 are left), get on empty; "
+                             "override on: fill, capacity+32 evicting puts, 64 gets, 2 puts}, every get compared, size/empty/full and both iterators over their first 64 elements at the checkpoints "
+                             "{1,2,32,64,65, 2^31-32,2^31-1,2^31,2^31+1,2^31+32, 2^32-32..2^32+32 likewise, cap-32,cap-1,cap,cap+1,cap+32} counted in puts (fill), gets (drain) and evictions"
+                           : "");
     mc_finish(true, bound);
     return 0;
 }
